@@ -638,6 +638,12 @@ impl<'a, 'e, 'ast> Visit<'ast> for Rewriter<'a, 'e> {
                 }
             }
         }
+        // R21: X.try_into() -> X.shim_try_into()  (the generic TryInto blanket impl has no Verus spec; routed through a trait)
+        else if name == "try_into" && m.args.is_empty() {
+            let (ma, mb) = self.src.range(m.method.span());
+            self.ed.replace(ma, mb, vec![Self::lit("shim_try_into")], "R21");
+            self.fire("R21");
+        }
         // R16: X.to_le_bytes() -> X.shim_to_le_bytes()
         else if name == "to_le_bytes" && m.args.is_empty() {
             let (ma, mb) = self.src.range(m.method.span());
